@@ -29,6 +29,13 @@ class BaseProp:
     def known_match(self, failure, known):
         return None
 
+    def oracle_relevant(self, stream, line):
+        """Oracle verdicts of shared streams carry property tags `[Cxx]`; a property judges the lines tagged with its id
+        (and untagged ones)."""
+        import re
+        tags = re.findall(r"\[(C\d+)\]", line)
+        return (not tags) or (self.id in tags)
+
 
 def hexs(b):
     return b.hex() if b else "-"
